@@ -104,14 +104,14 @@ def check_family(chk, kind, els, boxes, r, tier, tag="grid", oracle_frac=0.25, s
             for name, inds in (("perm", perm), ("dups", dups), ("empty", np.array([], dtype=np.int64))):
                 got = np.asarray(arr.intersects_bounds(given, inds))
                 if len(got) != len(inds) or (got != impl[inds]).any():
-                    chk.violation(f"intersects_bounds/{kind}/inds-form-differs/{name}",
+                    chk.violation(sig_override or f"intersects_bounds/{kind}/inds-form-differs/{name}",
                                   dict(api=f"{kind.title()}Array.intersects_bounds(inds)", kind=kind, box=list(given),
                                        inds=inds.tolist()[:20], whole=impl[inds].tolist()[:20], got=got.tolist()[:20]))
             chk.count("form:inds", 3)
             got = np.asarray(sliced.intersects_bounds(given))
             if (got != impl).any() and st == "float64":
                 i = int(np.nonzero(got != impl)[0][0])
-                chk.violation(f"intersects_bounds/{kind}/sliced-view-differs",
+                chk.violation(sig_override or f"intersects_bounds/{kind}/sliced-view-differs",
                               dict(api="intersects_bounds on arr[1:]", kind=kind, box=list(given), element=els[i],
                                    whole=bool(impl[i]), sliced=bool(got[i])))
             chk.count("form:sliced", 1)
@@ -126,12 +126,12 @@ def check_family(chk, kind, els, boxes, r, tier, tag="grid", oracle_frac=0.25, s
                     if classes[i] == "empty":
                         chk.drifted(f"{kind}: scalar form of an element without vertices raises {common.err_kind(e)}", els[i])
                     else:
-                        chk.violation(f"intersects_bounds/{kind}/scalar-form-raises/{common.err_kind(e)}",
+                        chk.violation(sig_override or f"intersects_bounds/{kind}/scalar-form-raises/{common.err_kind(e)}",
                                       dict(api=f"{kind.title()}.intersects_bounds", kind=kind, subtype=st, box=list(given),
                                            element=els[i], error=repr(e)[:200]))
                     continue
                 if sc != bool(impl[i]):
-                    chk.violation(f"intersects_bounds/{kind}/scalar-form-differs/{classes[i]}",
+                    chk.violation(sig_override or f"intersects_bounds/{kind}/scalar-form-differs/{classes[i]}",
                                   dict(api=f"{kind.title()}.intersects_bounds", kind=kind, subtype=st, box=list(given),
                                        element=els[i], scalar=sc, array=bool(impl[i])))
                 chk.count("form:scalar")
@@ -140,7 +140,7 @@ def check_family(chk, kind, els, boxes, r, tier, tag="grid", oracle_frac=0.25, s
                 ser = GeoSeries(arr0, index=[f"r{i}" for i in range(n)])
             sg = ser.intersects_bounds(given)
             if list(sg.index) != list(ser.index) or (sg.values != np.asarray(arr0.intersects_bounds(given))).any():
-                chk.violation(f"intersects_bounds/{kind}/series-form-differs", dict(api="GeoSeries.intersects_bounds", box=list(given)))
+                chk.violation(sig_override or f"intersects_bounds/{kind}/series-form-differs", dict(api="GeoSeries.intersects_bounds", box=list(given)))
             chk.count("form:series")
         # independent oracle on a share of the boxes
         if dom and r.random() < oracle_frac:
